@@ -206,7 +206,7 @@ func flexLayout(context *layoutContext, box_ Box, bottomSpace pr.Float, skipStac
 	}
 	originalSkipStack := skipStack
 	children := append([]Box{}, box.Children...)
-	sort.Slice(children, func(i, j int) bool { return children[i].Box().Style.GetOrder() < children[j].Box().Style.GetOrder() })
+	sort.SliceStable(children, func(i, j int) bool { return children[i].Box().Style.GetOrder() < children[j].Box().Style.GetOrder() })
 	if skipStack != nil {
 		var index int
 		index, skipStack = skipStack.Unpack()
